@@ -216,6 +216,11 @@ struct Nut {
     tainted: bool,
 }
 
+/// the ingest task is gone (it panicked): a definite failure of the property, not an undecided run
+fn died_or_inconclusive(e: &str) -> String {
+    if e == "LOOP-DIED" || e == "channel-closed" { "err loop-died".into() } else { format!("inconclusive {e}") }
+}
+
 fn wait_until(mut cond: impl FnMut() -> bool, limit: Duration) -> bool {
     let t0 = Instant::now();
     let mut spins = 0u32;
@@ -349,8 +354,13 @@ impl Nut {
     fn next_tick(&mut self) -> Result<(u64, u64, u64), String> {
         let s = stats();
         let c0 = ld(&s.ticks);
-        if !wait_until(|| ld(&s.ticks) > c0, LONG) {
+        let h = self.loop_handle.as_ref();
+        let died = || h.map(|h| h.is_finished()).unwrap_or(true);
+        if !wait_until(|| ld(&s.ticks) > c0 || died(), LONG) {
             return Err("no-tick".into());
+        }
+        if ld(&s.ticks) <= c0 {
+            return Err("LOOP-DIED".into());
         }
         Ok((ld(&s.g_q), ld(&s.g_cost), ld(&s.g_jobs)))
     }
@@ -376,7 +386,7 @@ impl Nut {
         let fresh = stats().last_tick.lock().unwrap().map(|t| t.elapsed() < self.tick / 5).unwrap_or(false);
         if !fresh {
             if let Err(e) = self.next_tick() {
-                return format!("inconclusive {e}");
+                return died_or_inconclusive(&e);
             }
         }
         self.held_ticks = ld(&stats().ticks);
@@ -418,10 +428,7 @@ impl Nut {
         let s = stats();
         let (d0, s0) = (ld(&s.dropped), ld(&s.spawned));
         if let Err(e) = self.send(c, src).and_then(|_| self.sentinel()) {
-            if e == "LOOP-DIED" || e == "channel-closed" {
-                return "err loop-died".into();
-            }
-            return format!("inconclusive {e}");
+            return died_or_inconclusive(&e);
         }
         let mut rb = 0;
         while let Ok(m) = self.rx_bcast.try_recv() {
@@ -442,13 +449,13 @@ impl Nut {
                     // the flush / trim of this tick happen right after the gauges, in the same task step;
                     // a sentinel makes sure they are over before the next op
                     if let Err(e) = self.sentinel() {
-                        return format!("inconclusive {e}");
+                        return died_or_inconclusive(&e);
                     }
                     self.check_no_tick();
                 }
                 format!("ok q={q} cost={cost} jobs={jobs}")
             }
-            Err(e) => format!("inconclusive {e}"),
+            Err(e) => died_or_inconclusive(&e),
         }
     }
 
@@ -490,7 +497,7 @@ impl Nut {
             match self.next_tick() {
                 Ok((0, _, 0)) => break,
                 Ok(_) => {}
-                Err(e) => return format!("inconclusive {e}"),
+                Err(e) => return died_or_inconclusive(&e),
             }
             if t0.elapsed() > LONG {
                 return "inconclusive not-drained".into();
@@ -779,9 +786,6 @@ impl World {
         };
         let Some(nut) = self.nut.as_mut() else { return "err no-node".into() };
         let out = nut.offer(c, src);
-        if out == "err loop-died" {
-            self.failures.push(format!("ingest-loop-died: handle_changes terminated while processing {item}; the node ingests nothing any more"));
-        }
         if out.starts_with("ok") {
             let inverted = o.seqs.map(|(a, b)| a > b).unwrap_or(false);
             if o.site != NUT && !inverted && !self.offered.iter().any(|x| x.text == o.text) {
@@ -879,6 +883,17 @@ impl World {
     }
 
     fn exec(&mut self, toks: &[&str]) -> String {
+        let out = self.exec_inner(toks);
+        if out == "err loop-died" && !self.failures.iter().any(|f| f.starts_with("ingest-loop-died")) {
+            self.failures.push(format!(
+                "ingest-loop-died: handle_changes terminated (op `{}`); the node ingests nothing any more",
+                toks.join(" ")
+            ));
+        }
+        out
+    }
+
+    fn exec_inner(&mut self, toks: &[&str]) -> String {
         let with_nut = |w: &mut World, f: &dyn Fn(&mut Nut) -> String| -> String {
             match w.nut.as_mut() {
                 Some(n) => f(n),
